@@ -348,7 +348,7 @@ def main(tier, seed):
                      "the property's 'random DAGs up to 40 nodes' are replaced by "
                      "structured families (sampling is not this technique)"],
         required_stats=("dags_n5", "cyclic_n4", "family_graphs"), chunk=1,
-        budget_s=240 if tier == "quick" else 3000, confirm_job=confirm_job)
+        budget_s=240 if tier == "quick" else 900, confirm_job=confirm_job)
 
 
 def replay(path):
